@@ -956,6 +956,10 @@ class Engine:
 
     def ev_UnaryOp(self, st, e):
         v = self.ev(st, e.operand)
+        if self.hooks and hasattr(self.hooks, 'unary'):
+            x = self.hooks.unary(self, st, e.op, v, e)
+            if x is not NotImplemented and x is not None:
+                return x
         if isinstance(e.op, ast.Not):
             return BoolV(z3.Not(self.truth(st, v)), taint=v.taint)
         if isinstance(e.op, ast.USub):
